@@ -20,6 +20,7 @@ def register(w):
         "pygopherd/handlers/base.py::BaseHandler.gethandler",
         "pygopherd/handlers/base.py::BaseHandler.__init__",
         "pygopherd/handlers/base.py::VFS_Real.__init__",
+        "pygopherd/handlers/base.py::VFS_Real.iswritable",
         "pygopherd/handlers/virtual.py::Virtual.getselector",
         "pygopherd/handlers/UMN.py::LinkEntry.__init__",
         "pygopherd/handlers/HandlerMultiplexer.py::init_default_handlers",
@@ -36,6 +37,7 @@ def register(w):
     w.fields("BaseHandler", selector="str", searchrequest="opt[str]", protocol="obj:BaseGopherProtocol", config="obj:Config",
              statresult="opt[stat]", fspath="opt[str]", entry="opt[obj:GopherEntry]", vfs="obj:VFS")
     w.fields("Virtual", selectorreal="str", selectorargs="str")
+    w.fields("FolderHandler", entries="list[obj:GopherEntry]", mbox="opaque:mailbox")
     w.fields("BaseGopherProtocol", request="str", rfile="obj:RFile", wfile="obj:WFile", config="obj:Config",
              server="obj:Server", requesthandler="obj:RequestHandler", requestlist="list[str]",
              searchrequest="opt[str]", handler="opt[obj:BaseHandler]", selector="str", entry="obj:GopherEntry")
